@@ -17,7 +17,7 @@ __attribute__((noinline)) void paintStack(unsigned char byte) {
 
 CaseResult runC14(const Case &c, RunCtx &ctx) {
     CaseResult r;
-    Interp in(ctx);
+    Interp in(ctx, "C14");
     const char *sb0 = getenv("VERIF_STACK_BYTE");
     struct Painter : Listener { unsigned char b; void before(Interp &, const Op &, size_t) override { paintStack(b); } } painter;
     painter.b = sb0 ? static_cast<unsigned char>(atoi(sb0)) : 0xA5;
@@ -54,6 +54,31 @@ CaseResult runC14(const Case &c, RunCtx &ctx) {
         try { in.o().write(p3); } catch (...) { Outcome e = classifyCurrentException(); r.fail("save over an existing file threw " + e.cls); return r; }
         std::vector<uint8_t> b3; readBytes(p3, b3);
         if (b3 != b1) { r.fail("saving over an existing longer file gives " + std::to_string(b3.size()) + " bytes instead of " + std::to_string(b1.size()) + ": bytes of the previous file survive in the output"); return r; }
+    }
+    {   // equal objects give equal files whatever else the process saved in between: a different, rich object (18 header events with
+        // 4-character labels, long names and descriptions, points and channels) is loaded and saved, then the object is saved again
+        static const char *otherText =
+            "property: C14\nflayout 0 2 0 0 170 0\nfshape 5 3 2 4 7 9 0 0 77 0\nfhdr 65535 65535 65535 65535 18 4242 0\nfids 0 1 3\n"
+            "fgroup 5 3 200 1\nfgroup 6 7 255 0\nfparam 3 2 3 2 40 6 0 0 0 0 0 91 255 1\nfparam 4 3 1 2 9 9 0 0 0 0 0 92 100 0\nfparam 0 5 2 1 100 0 0 0 0 0 0 93 7 0\nforder 5 0\nload\n";
+        Case oc; std::string err;
+        if (parseCase(otherText, oc, err)) {
+            try {
+                std::vector<uint8_t> ob = fileBytesOf(oc.ops, nullptr);
+                const std::string po = in.path("c14_other_in.c3d"), po2 = in.path("c14_other_out.c3d");
+                writeBytes(po, ob);
+                ezc3d::c3d other(po);
+                other.write(po2);
+                r.tags.insert("another-object-saved-in-between");
+            } catch (...) { r.tags.insert("other-object-unavailable"); }
+            const std::string p4 = in.path("c14_again.c3d");
+            try { in.o().write(p4); } catch (...) { Outcome e = classifyCurrentException(); r.fail("save after another object was saved threw " + e.cls); return r; }
+            std::vector<uint8_t> b4; readBytes(p4, b4);
+            if (b4 != b1) {
+                size_t k = 0; while (k < b1.size() && k < b4.size() && b1[k] == b4[k]) ++k;
+                r.fail("the same object saved before and after ANOTHER object was loaded and saved gives different files (offset " + std::to_string(k) + ", sizes " + std::to_string(b1.size()) + "/" + std::to_string(b4.size()) + "): the output depends on what the process saved earlier");
+                return r;
+            }
+        }
     }
     // digest for the cross-process comparison
     if (const char *out = getenv("VERIF_DIGEST_OUT")) {
